@@ -62,9 +62,12 @@ class PairStage(LineStage):
         for sc in self.scripts:
             per.append([o for op, o in zip(sc.ops, out[pos:pos + len(sc.ops)]) if op.startswith("D dbg")])
             pos += len(sc.ops)
+        found = 0
         for i in range(0, len(per) - 1, 2):
-            if per[i] != per[i + 1] and len(res["mismatches"]) < 5:
-                res["mismatches"].append(dict(kind="impl-vs-spec", impl_name="rs", ops=self.scripts[i].ops + ["#variant"] + self.scripts[i + 1].ops,
+            if per[i] != per[i + 1] and found < 3:
+                # the property-level witness: reported first, whatever else the three-way comparison found
+                found += 1
+                res["mismatches"].insert(found - 1, dict(kind="impl-vs-spec", impl_name="rs", ops=self.scripts[i].ops + ["#variant"] + self.scripts[i + 1].ops,
                                               impl_differs=True, note="Debug output differs between two histories that differ only in secrets",
                                               impl_output=str(per[i])[:500], spec_output=str(per[i + 1])[:500]))
         return res
@@ -77,6 +80,7 @@ def zero_oracle(op):
             if not m:
                 return out == "-"       # the Lean driver has no memory model: it prints `-`
             return int(m.group(3)) == 0 and int(m.group(2)) > 0
+        ok.replaces_equality = True     # memory scans have no counterpart in the Lean driver
         return ok
     return None
 
